@@ -1,6 +1,7 @@
 (** C06 — Connection-id remapping never changes tokenization. *)
 From Vib Require Import Model.Base Model.Lattice Model.Tokenizer Model.Mapper Proofs.Viterbi Proofs.TokenizerProofs
   Proofs.WorkerProofs Proofs.CountProofs Proofs.MapperProofs Proofs.RenameProofs.
+From Vib Require Import Model.Remap Proofs.RemapProofs.
 From Coq Require Import Permutation.
 Local Open Scope N_scope.
 
@@ -31,6 +32,45 @@ Proof. exact tokenize_renamed. Qed.
 Theorem c06_history : forall d0 f g d, reach d0 f g d -> renamed f g d0 d.
 Proof. exact reach_renamed. Qed.
 
+(** THE THREE CONNECTORS' REMAPPING LOOPS satisfy the contract [c06_tokenize_invariant] needs --
+    the cost of (new right id, new left id) after the call is the old cost of (right id, left id) --
+    for every pair of permutations of the ids:
+    - matrix connector: the data array scattered to [index(new r, new l)];
+    - raw connector: one row of feature ids per connection id, scattered to the new ids;
+    - dual connector: per id a matrix row number and a raw feature row, both scattered; then the
+      matrix rows are renumbered by first appearance and the matrix is permuted accordingly (every
+      matrix row being used by some id): the entry read and the two raw rows are unchanged. *)
+Theorem c06_matrix_remap : forall data nr nl pr pl r l, perm pr nr -> perm pl nl -> length data = (nr * nl)%nat ->
+  (r < nr)%nat -> (l < nl)%nat ->
+  mat_cost (map_matrix data nr nl pr pl) nr (pr r) (pl l) = mat_cost data nr r l.
+Proof. exact map_matrix_spec. Qed.
+
+Theorem c06_raw_remap : forall (rows : list (list N)) p i, perm p (length rows) -> (i < length rows)%nat ->
+  nth (p i) (map_rows [] rows p) [] = nth i rows [].
+Proof. intros rows p i. apply (map_rows_spec (A := list N) [] rows p i). Qed.
+
+Theorem c06_dual_remap : forall dm pr pl r l,
+  perm pr (length (dm_rmap dm)) -> perm pl (length (dm_lmap dm)) ->
+  length (dm_rfeat dm) = length (dm_rmap dm) -> length (dm_lfeat dm) = length (dm_lmap dm) ->
+  (forall k, (k < length (dm_rmap dm))%nat -> (nth k (dm_rmap dm) 0 < dm_mr dm)%nat) -> (forall a, (a < dm_mr dm)%nat -> In a (dm_rmap dm)) ->
+  (forall k, (k < length (dm_lmap dm))%nat -> (nth k (dm_lmap dm) 0 < dm_ml dm)%nat) -> (forall a, (a < dm_ml dm)%nat -> In a (dm_lmap dm)) ->
+  length (dm_matrix dm) = (dm_mr dm * dm_ml dm)%nat ->
+  (r < length (dm_rmap dm))%nat -> (l < length (dm_lmap dm))%nat ->
+  dual_view (map_dual dm pr pl) (pr r) (pl l) = dual_view dm r l.
+Proof. exact map_dual_spec. Qed.
+
+(** non-vacuity: a 2x3 matrix, ids (0 1) swapped on the right and rotated on the left; a dual map
+    with two ids sharing matrix row 1 *)
+Example c06_remap_example :
+  let pr := fun i => match i with 0 => 1 | 1 => 0 | _ => i end%nat in
+  let pl := fun i => match i with 0 => 1 | 1 => 2 | 2 => 0 | _ => i end%nat in
+  map_matrix [10; 11; 20; 21; 30; 31]%Z 2 3 pr pl = [31; 30; 11; 10; 21; 20]%Z /\
+  (let dm := {| dm_rmap := [0; 1; 1]%nat; dm_lmap := [0; 1]%nat; dm_rfeat := [[0%N]; [5%N]; [6%N]]; dm_lfeat := [[0%N]; [7%N]];
+                dm_matrix := [1; 2; 3; 4]%Z; dm_mr := 2; dm_ml := 2 |} in
+   let p := fun i => match i with 0 => 2 | 1 => 0 | 2 => 1 | _ => i end%nat in
+   dm_rmap (map_dual dm p (fun i => i)) = [0; 0; 1]%nat /\ dual_view (map_dual dm p (fun i => i)) (p 1) 1 = dual_view dm 1 1)%nat.
+Proof. vm_compute. auto. Qed.
+
 Example c06_example : mapper_parse [2; 3; 1] = Ok [0; 3; 1; 2] /\ mapper_parse [2; 2; 1] = Err /\ mapper_parse [1; 0] = Err /\ mapper_parse [1; 4] = Err.
 Proof. vm_compute. auto. Qed.
 
@@ -40,3 +80,6 @@ Print Assumptions c06_parse_never_panics.
 Print Assumptions c06_parse_inverse.
 Print Assumptions c06_tokenize_invariant.
 Print Assumptions c06_history.
+Print Assumptions c06_matrix_remap.
+Print Assumptions c06_raw_remap.
+Print Assumptions c06_dual_remap.
